@@ -11,6 +11,10 @@ CLAIMED = {
          'deterministic simulation: real server on simulated byte streams, pipelined generated messages under a seeded scheduler with back-pressure and stream fragmentation; executable classifier as reference model; bipartite reply attribution',
          'Seeded search over message lists from a grammar (valid calls over all id forms/method names/params shapes, notifications, ids outside the domain, invalid objects, non-object JSON, non-JSON, leading whitespace), pipelined over WebSocket connections so that replies overtake each other, and sent as HTTP POSTs (direct tower call or hyper over a fragmenting simulated stream); four handler kinds; two server assemblies; every frame/body must be one well-formed response attributable to exactly one message by a maximum matching against the classifier, handlers run exactly for valid calls, HTTP and WebSocket agree. Sampling, not enumeration; the input grammar is seeded generation.',
          'A task poll is atomic; the classifier (sim/src/srv/model.rs) is trusted; Server::start accept loop not used (TowerService per connection); one known finding (invalid UTF-8 inside JSON-shaped text).'),
+ 'C02': ('exploration', 'srvsim', 'DESIGN.md §8 C02',
+         'deterministic simulation: real server on simulated streams; generated batches pipelined between single calls and next to a live subscription under a seeded scheduler; classifier model + frame accounting ("nothing outside the array") + differential against the same entry sent alone',
+         'Seeded search over arrays of 0-8 entries (C01 entry grammar, subscribe/unsubscribe calls, duplicate ids) x batch config Disabled/Limit/Unlimited x transport; the reply must be exactly one array (or the one specified error object, or nothing) with one matching response per call/invalid entry by maximum matching; every other frame on the connection must be explained by non-batch traffic; no entry runs for refused batches; each call entry is re-sent alone and must get the identical response object. Sampling, not enumeration.',
+         'A task poll is atomic; classifier trusted; one known finding (subscribe entry in a WebSocket batch).'),
  'C05': ('exploration', 'clisim', 'DESIGN.md §8 C05',
          'deterministic simulation: seeded scheduler + scripted peer pushing notifications singly/grouped; exact routing and buffer-occupancy reference model over stamped events',
          'Seeded search over push sequences (live/ended/unknown ids, close and method notifications, grouped into arrays in drawn ways), consumer paces, unsubscribe/drop points and task schedules; each stream is compared with an executable model that is advanced by the stamped events "push handed to the client" and "consumer took an item", so contents, order, end of stream, close reason and the number of unsubscribe requests on the wire are decided exactly for each explored run. Sampling, not enumeration.',
